@@ -124,6 +124,16 @@ def render(tree, sep, style='compact'):
         if s is None:      # no syllable level: the phones of a word are joined directly
             words = [[[ph for syl in word for ph in syl]] for word in words]
         return j(w, [j(s, [j(p, syl) for syl in word]) for word in words])
+    if style == 'joined-inner':
+        # every word is followed by the word separator (as DiBS requires of a training line), but inside a word the
+        # syllables are joined BY the syllable separator and the phones of a syllable BY the phone separator: h_e/l_o;eword
+        def ji(x, items):
+            return ''.join(items) if x is None else x.join(items)
+        out = ''
+        for word in tree:
+            sylls = word if s is not None else [[ph for syl in word for ph in syl]]
+            out += ji(s, [ji(p, syl) for syl in sylls]) + (w if w is not None else '')
+        return out
     raise ValueError(style)
 
 
